@@ -500,6 +500,14 @@ def cases_a():
     for v in SUP + S.UNSUPPORTED:
         for op in LIB_OPS:
             out.append({"part": "a", "v": list(v), "op": op, "item": valid_item(op, idx)})
+    # the answers the session makes itself (Response Too Large for a Maximum Response Size the
+    # answer does not fit in) speak the request's version too
+    for v in SUP:
+        for op in ("Query", "Locate", "Create", "DiscoverVersions"):
+            if S.OPERATIONS[op][1] > v:
+                continue
+            for m in (0, 1, 64):
+                out.append({"part": "a", "v": list(v), "op": op, "item": valid_item(op, idx), "hdr": {"max": m}})
     return out
 
 
